@@ -191,7 +191,8 @@ func init() {
 		}, WrapEnums: true,
 		Rule: "profile `closures` (capture × exit path × register reuse; shared upvalues; setfenv/getfenv) + exhaustive closure exit shapes + register-0 loop shapes + nested-close shapes (captured block ending in a capturing nested block, taken/skipped/left early) + corpus; oracle = Lean reference semantics"})
 	reg(progSpec{Prop: "C04", Profiles: []string{"meta"}, QuickN: 1000, ThoroughN: 25000, FaultPct: 10, Layouts: one,
-		Rule: "profile `meta` (metatables with every subset of events, chains, operand type pairs, logging handlers) + corpus; oracle = Lean reference semantics (manual §2.8)"})
+		Must: func(bool) []*Program { return EnumInheritedHandlerShapes() },
+		Rule: "profile `meta` (metatables with every subset of events, chains, operand type pairs, logging handlers) + 53 inherited-handler shapes (events reachable only through the metatable's own __index are not events) + corpus; oracle = Lean reference semantics (manual §2.8)"})
 	reg(progSpec{Prop: "C05", Profiles: []string{"errors"}, QuickN: 1200, ThoroughN: 30000, FaultPct: 60, Layouts: one,
 		Rule: "profile `errors` (pcall/xpcall/error with every value type and level, nested, runtime faults at random points, continuing after caught errors) + corpus; oracle = Lean reference semantics"})
 	reg(progSpec{Prop: "C06", Profiles: []string{"coroutines"}, QuickN: 1200, ThoroughN: 30000, FaultPct: 10, Layouts: one,
